@@ -557,10 +557,20 @@ func c14Body(c *fw.Ctx) {
 		sc := sc
 		scName := strings.Join(flatNames(sc), " || ")
 		// determinism self-check: the default schedule twice, identical statement traces
-		e1, f1 := r.runOne(sc, nil, nil, true)
+		// (three runs: the first may differ from the later ones when the calls leave state behind - a cache in a
+		// package-level parser, say; whether that state is legal is for the oracles to decide, so only a difference
+		// between two *warm* runs counts as non-determinism of the harness)
+		_, f1 := r.runOne(sc, nil, nil, true)
 		e2, f2 := r.runOne(sc, nil, nil, true)
-		if f1 == nil && f2 == nil && fmt.Sprint(e1.PointIDs) != fmt.Sprint(e2.PointIDs) {
-			c.Broken("scenario [%s] is not deterministic under the scheduler (statement traces differ)", scName)
+		e3, f3 := r.runOne(sc, nil, nil, true)
+		if f1 == nil && f2 == nil && f3 == nil && fmt.Sprint(e2.PointIDs) != fmt.Sprint(e3.PointIDs) {
+			// still differing: the code under test behaves differently from run to run. Ask the oracles first.
+			cs := schedCase(sc, nil)
+			if g := schedEvaluator(cs); g != nil && g.Class != "harness" {
+				c.Report(g, func() *fw.Case { return cs })
+			} else {
+				c.Incomplete(fmt.Sprintf("scenario [%s] skipped: its statement trace differs between identical warm runs and no oracle objects (behaviour depends on earlier calls); not explorable by replay", scName))
+			}
 			continue
 		}
 		// cold pass: the default schedule in a fresh process where nothing of the library has run before
